@@ -6,8 +6,8 @@ import UmProofs.BrokerScaleDownA
 `iterate_spec`; `downChunks_spec` is the outer loop: every source master is drained completely,
 no panic, fuel suffices, and the slots handed out equal the sources' total.
 -/
-namespace Um.Broker
-open Um Um.Slots
+namespace Um.Broker.Scale
+open Um Um.Slots Um.Broker
 
 theorem downBody_eq (P : DownParams) (c p : Nat) (rl : RangeList) (st : LoopSt) :
     downBody P c p (rl, st) =
@@ -31,8 +31,8 @@ theorem downBody_eq (P : DownParams) (c p : Nat) (rl : RangeList) (st : LoopSt) 
           if decide (t.2.2 + ex ≥ downFinalOf P st.dstIdx) || (slotsNum t.1 == 0) then
             let st2 : LoopSt :=
               if t.2.2 + ex ≥ downFinalOf P st.dstIdx then
-                ⟨st.dstIdx + 1, [], 0, st.out ++ [P.task c p st.dstIdx (rlNew t.2.1)]⟩
-              else ⟨st.dstIdx, [], t.2.2, st.out ++ [P.task c p st.dstIdx (rlNew t.2.1)]⟩
+                ⟨st.dstIdx + 1, [], 0, st.out ++ [(DownParams.task P) c p st.dstIdx (rlNew t.2.1)]⟩
+              else ⟨st.dstIdx, [], t.2.2, st.out ++ [(DownParams.task P) c p st.dstIdx (rlNew t.2.1)]⟩
             if slotsNum t.1 == 0 then R.ok (.done (t.1, st2)) else R.ok (.cont (t.1, st2))
           else R.ok (.cont (t.1, { st with curSlots := t.2.1, curNum := t.2.2 })) := by
   simp only [cutFirst_fst, cutFirst_snd_fst, cutFirst_snd_snd]
@@ -43,8 +43,8 @@ structure DI (P : DownParams) (c p G0 : Nat) (out0 : List MigSlots) (d0 : Nat) (
   inv : DStInv P x.2
   pieces : PiecesAbove x.1 x.2.curSlots
   csl : x.2.curSlots ≠ [] → 0 < slotsNum x.1
-  cons : P.given x.2 + slotsNum x.1 = G0
-  bud : G0 ≤ P.total
+  cons : (DownParams.given P) x.2 + slotsNum x.1 = G0
+  bud : G0 ≤ (DownParams.total P)
   outs : ∃ new, x.2.out = out0 ++ new ∧ ∀ ms ∈ new, ms.mm.srcChunk = c ∧ ms.mm.srcPart = p
   mono : d0 ≤ x.2.dstIdx
 
@@ -54,7 +54,7 @@ def DQ (P : DownParams) (c p G0 : Nat) (out0 : List MigSlots) (d0 : Nat) (x : Ra
 def dMeasure (P : DownParams) (x : RangeList × LoopSt) : Nat := slotsNum x.1 + (P.dstMasterNum - x.2.dstIdx)
 
 theorem DownParams.given_fin (P : DownParams) {st : LoopSt} (h : st.dstIdx = P.dstMasterNum) :
-    P.total ≤ P.given st := by
+    (DownParams.total P) ≤ (DownParams.given P) st := by
   unfold DownParams.total DownParams.given; rw [h]; omega
 
 theorem outs_snoc {c p : Nat} {out0 out : List MigSlots} (ms : MigSlots)
@@ -68,7 +68,7 @@ theorem outs_snoc {c p : Nat} {out0 out : List MigSlots} (ms : MigSlots)
   · exact h2 x hx
   · simp only [List.mem_singleton] at hx; subst hx; exact ⟨hc, hp⟩
 
-theorem downBody_step (P : DownParams) (hok : P.Ok) (c p : Nat) (hp : p < 2) (G0 : Nat)
+theorem downBody_step (P : DownParams) (hok : (DownParams.Ok P)) (c p : Nat) (hp : p < 2) (G0 : Nat)
     (out0 : List MigSlots) (d0 : Nat) (x : RangeList × LoopSt) (hI : DI P c p G0 out0 d0 x) :
     (∃ x', downBody P c p x = R.ok (Iter.done x') ∧ DQ P c p G0 out0 d0 x') ∨
     (∃ x', downBody P c p x = R.ok (Iter.cont x') ∧ DI P c p G0 out0 d0 x' ∧ dMeasure P x' < dMeasure P x) := by
@@ -79,30 +79,30 @@ theorem downBody_step (P : DownParams) (hok : P.Ok) (c p : Nat) (hp : p < 2) (G0
   by_cases hD : st.dstIdx = P.dstMasterNum
   · have hD' : (st.dstIdx == P.dstMasterNum) = true := by simpa using hD
     rw [if_pos hD']
-    have := P.given_fin hD
+    have := (DownParams.given_fin P) hD
     exact Or.inl ⟨_, rfl, ⟨hasc, hinv, hpieces, hcsl, hcons, hbud, houts, hmono⟩, by simp only; omega,
       (hinv.fin hD).2⟩
   · have hD' : ¬ (st.dstIdx == P.dstMasterNum) = true := by simpa using hD
     rw [if_neg hD']
     have hlt : st.dstIdx < P.dstMasterNum := by have := hinv.le; omega
     have hexl : st.dstIdx < P.existing.length := by rw [hok.len]; exact hlt
-    have hget : P.existing[st.dstIdx]? = some (P.ex st.dstIdx) := by
+    have hget : P.existing[st.dstIdx]? = some ((DownParams.ex P) st.dstIdx) := by
       unfold DownParams.ex
       rw [List.getElem?_eq_getElem hexl]; rfl
     rw [hget]
     simp only
     have hle := hok.le _ hlt
-    have hdn : P.dneed st.dstIdx = downFinalOf P st.dstIdx - P.ex st.dstIdx := rfl
-    have hcn : st.curNum ≤ P.dneed st.dstIdx := by
+    have hdn : (DownParams.dneed P) st.dstIdx = downFinalOf P st.dstIdx - (DownParams.ex P) st.dstIdx := rfl
+    have hcn : st.curNum ≤ (DownParams.dneed P) st.dstIdx := by
       rcases hinv.lt hlt with h | h <;> omega
-    have h1 : ¬ downFinalOf P st.dstIdx < st.curNum + P.ex st.dstIdx := by omega
+    have h1 : ¬ downFinalOf P st.dstIdx < st.curNum + (DownParams.ex P) st.dstIdx := by omega
     rw [if_neg h1]
-    by_cases hz : downFinalOf P st.dstIdx - st.curNum - P.ex st.dstIdx = 0
+    by_cases hz : downFinalOf P st.dstIdx - st.curNum - (DownParams.ex P) st.dstIdx = 0
     · -- skip a destination that already owns its final count
-      have hz' : (downFinalOf P st.dstIdx - st.curNum - P.ex st.dstIdx == 0) = true := by simpa using hz
+      have hz' : (downFinalOf P st.dstIdx - st.curNum - (DownParams.ex P) st.dstIdx == 0) = true := by simpa using hz
       rw [if_pos hz']
       have hc0 : st.curNum = 0 := by rcases hinv.lt hlt with h | h <;> omega
-      have hd0 : P.dneed st.dstIdx = 0 := by omega
+      have hd0 : (DownParams.dneed P) st.dstIdx = 0 := by omega
       have hcs : st.curSlots = [] := by
         apply Classical.byContradiction
         intro hne; have := (hinv.cs hne).1; omega
@@ -124,7 +124,7 @@ theorem downBody_step (P : DownParams) (hok : P.Ok) (c p : Nat) (hp : p < 2) (G0
       · simp only [DownParams.given, sumTo] at hcons ⊢
         omega
       · simp only [dMeasure]; omega
-    · have hz' : ¬ (downFinalOf P st.dstIdx - st.curNum - P.ex st.dstIdx == 0) = true := by simpa using hz
+    · have hz' : ¬ (downFinalOf P st.dstIdx - st.curNum - (DownParams.ex P) st.dstIdx == 0) = true := by simpa using hz
       rw [if_neg hz']
       by_cases ha : slotsNum rl = 0
       · have ha' : (slotsNum rl == 0) = true := by simpa using ha
@@ -138,30 +138,30 @@ theorem downBody_step (P : DownParams) (hok : P.Ok) (c p : Nat) (hp : p < 2) (G0
         | nil => exact absurd rfl ha
         | cons first rest =>
           simp only
-          have hrem : 1 ≤ min (downFinalOf P st.dstIdx - st.curNum - P.ex st.dstIdx) (slotsNum (first :: rest)) := by
+          have hrem : 1 ≤ min (downFinalOf P st.dstIdx - st.curNum - (DownParams.ex P) st.dstIdx) (slotsNum (first :: rest)) := by
             omega
-          have hnp : ¬ ((decide (min (downFinalOf P st.dstIdx - st.curNum - P.ex st.dstIdx) (slotsNum (first :: rest)) < rangeNum first) &&
-              min (downFinalOf P st.dstIdx - st.curNum - P.ex st.dstIdx) (slotsNum (first :: rest)) + first.1 == 0) = true) := by
+          have hnp : ¬ ((decide (min (downFinalOf P st.dstIdx - st.curNum - (DownParams.ex P) st.dstIdx) (slotsNum (first :: rest)) < rangeNum first) &&
+              min (downFinalOf P st.dstIdx - st.curNum - (DownParams.ex P) st.dstIdx) (slotsNum (first :: rest)) + first.1 == 0) = true) := by
             simp only [Bool.and_eq_true, decide_eq_true_eq, beq_iff_eq, not_and]
             intro _; omega
           rw [if_neg hnp]
           obtain ⟨moved, hm1, hm2, ht3, ht1, ht2, htasc, htp⟩ :=
             cutFirst_spec st.curSlots st.curNum _ hasc hrem hpieces _ rfl
           generalize cutFirst first rest st.curSlots st.curNum
-            (min (downFinalOf P st.dstIdx - st.curNum - P.ex st.dstIdx) (slotsNum (first :: rest))) = t at *
+            (min (downFinalOf P st.dstIdx - st.curNum - (DownParams.ex P) st.dstIdx) (slotsNum (first :: rest))) = t at *
           obtain ⟨rl1, cur1, num1⟩ := t
           simp only at ht3 ht1 ht2 htasc htp ⊢
           subst ht3
           have hcnt : slotsNum (rlNew cur1) = slotsNum cur1 := slotsNum_rlNew htp.disjList
           have hcurr := hinv.out.curr
-          have hgiv : P.given st = sumTo P.dneed st.dstIdx + st.curNum := rfl
-          by_cases hA : st.curNum + moved + P.ex st.dstIdx ≥ downFinalOf P st.dstIdx
+          have hgiv : (DownParams.given P) st = sumTo (DownParams.dneed P) st.dstIdx + st.curNum := rfl
+          by_cases hA : st.curNum + moved + (DownParams.ex P) st.dstIdx ≥ downFinalOf P st.dstIdx
           · -- destination complete
-            have hst2 : DStInv P ⟨st.dstIdx + 1, [], 0, st.out ++ [P.task c p st.dstIdx (rlNew cur1)]⟩ := by
+            have hst2 : DStInv P ⟨st.dstIdx + 1, [], 0, st.out ++ [(DownParams.task P) c p st.dstIdx (rlNew cur1)]⟩ := by
               refine ⟨by simp only; omega, fun _ => Or.inr rfl, fun _ => ⟨rfl, rfl⟩, fun h => absurd rfl h, ?_⟩
               exact dOutInv_emit_done hinv.out hlt c p hp (rlNew cur1) (show compact (rlNew cur1) = rlNew cur1 from compact_of_normal (normal_compact cur1)) (by omega)
             have hI2 : DI P c p G0 out0 d0
-                (rl1, ⟨st.dstIdx + 1, [], 0, st.out ++ [P.task c p st.dstIdx (rlNew cur1)]⟩) := by
+                (rl1, ⟨st.dstIdx + 1, [], 0, st.out ++ [(DownParams.task P) c p st.dstIdx (rlNew cur1)]⟩) := by
               refine ⟨htasc, hst2, piecesAbove_nil rl1, fun h => absurd rfl h, ?_, hbud,
                 outs_snoc _ houts rfl rfl, by simp only; omega⟩
               simp only [DownParams.given, sumTo]; omega
@@ -174,10 +174,10 @@ theorem downBody_step (P : DownParams) (hok : P.Ok) (c p : Nat) (hp : p < 2) (G0
               rw [if_neg hB']
               refine Or.inr ⟨_, rfl, hI2, ?_⟩
               simp only [dMeasure]; omega
-          · have hA' : st.curNum + moved < P.dneed st.dstIdx := by omega
+          · have hA' : st.curNum + moved < (DownParams.dneed P) st.dstIdx := by omega
             by_cases hB : slotsNum rl1 = 0
             · have hB' : (slotsNum rl1 == 0) = true := by simpa using hB
-              have hst2 : DStInv P ⟨st.dstIdx, [], st.curNum + moved, st.out ++ [P.task c p st.dstIdx (rlNew cur1)]⟩ := by
+              have hst2 : DStInv P ⟨st.dstIdx, [], st.curNum + moved, st.out ++ [(DownParams.task P) c p st.dstIdx (rlNew cur1)]⟩ := by
                 refine ⟨hinv.le, fun _ => Or.inl hA', fun h => absurd h hD, fun h => absurd rfl h, ?_⟩
                 exact dOutInv_emit_open hinv.out hlt c p hp (rlNew cur1) (show compact (rlNew cur1) = rlNew cur1 from compact_of_normal (normal_compact cur1)) _ (by omega)
               simp only [hA, hB', decide_false, Bool.false_or, if_true, if_false]
@@ -193,7 +193,7 @@ theorem downBody_step (P : DownParams) (hok : P.Ok) (c p : Nat) (hp : p < 2) (G0
               · simp only [dMeasure]; omega
 
 
-theorem downWhile_spec (P : DownParams) (hok : P.Ok) (c p : Nat) (hp : p < 2) (G0 : Nat)
+theorem downWhile_spec (P : DownParams) (hok : (DownParams.Ok P)) (c p : Nat) (hp : p < 2) (G0 : Nat)
     (out0 : List MigSlots) (d0 fuel : Nat) (rl : RangeList) (st : LoopSt)
     (hI : DI P c p G0 out0 d0 (rl, st)) (hfuel : dMeasure P (rl, st) < fuel) :
     ∃ x', downWhile P c p fuel rl st = R.ok x' ∧ DQ P c p G0 out0 d0 x' := by
@@ -229,14 +229,14 @@ def DownSrcOk (l : List Chunk) : Prop :=
 structure DStepPost (P : DownParams) (st st' : LoopSt) (supply lo hi : Nat) : Prop where
   inv : DStInv P st'
   empty : st'.curSlots = []
-  given : P.given st' = P.given st + supply
+  given : (DownParams.given P) st' = (DownParams.given P) st + supply
   mono : st.dstIdx ≤ st'.dstIdx
   outs : ∃ new, st'.out = st.out ++ new ∧ ∀ ms ∈ new, lo ≤ ms.mm.srcChunk ∧ ms.mm.srcChunk < hi
 
-theorem downHalf_spec (P : DownParams) (hok : P.Ok) (hD : P.dstMasterNum ≤ SLOT_NUM) (i part : Nat)
+theorem downHalf_spec (P : DownParams) (hok : (DownParams.Ok P)) (hD : P.dstMasterNum ≤ SLOT_NUM) (i part : Nat)
     (hp : part < 2) (o : Option RangeList) (st : LoopSt)
     (ho : ∀ rl, o = some rl → Asc rl ∧ slotsNum rl ≤ SLOT_NUM) (hinv : DStInv P st)
-    (hempty : st.curSlots = []) (hbud : P.given st + halfCount o ≤ P.total) :
+    (hempty : st.curSlots = []) (hbud : (DownParams.given P) st + halfCount o ≤ (DownParams.total P)) :
     ∃ st', downHalf P i part o st = R.ok st' ∧ DStepPost P st st' (halfCount o) i (i + 1) := by
   cases o with
   | none =>
@@ -244,7 +244,7 @@ theorem downHalf_spec (P : DownParams) (hok : P.Ok) (hD : P.dstMasterNum ≤ SLO
   | some rl =>
     obtain ⟨hasc, hle⟩ := ho rl rfl
     simp only [halfCount] at hbud ⊢
-    have hI : DI P i part (P.given st + slotsNum rl) st.out st.dstIdx (rl, st) :=
+    have hI : DI P i part ((DownParams.given P) st + slotsNum rl) st.out st.dstIdx (rl, st) :=
       ⟨hasc, hinv, hempty ▸ piecesAbove_nil rl, fun h => absurd hempty h, rfl, hbud, ⟨[], by simp, by simp⟩,
         Nat.le_refl _⟩
     have hfuel : dMeasure P (rl, st) < loopFuel := by
@@ -257,9 +257,9 @@ theorem downHalf_spec (P : DownParams) (hok : P.Ok) (hD : P.dstMasterNum ≤ SLO
     · obtain ⟨new, h1, h2⟩ := hq.outs
       exact ⟨new, h1, fun ms hms => by have := (h2 ms hms).1; omega⟩
 
-theorem downChunks_spec (P : DownParams) (hok : P.Ok) (hD : P.dstMasterNum ≤ SLOT_NUM) :
+theorem downChunks_spec (P : DownParams) (hok : (DownParams.Ok P)) (hD : P.dstMasterNum ≤ SLOT_NUM) :
     ∀ (chunks : List Chunk) (i : Nat) (st : LoopSt), DownSrcOk chunks → DStInv P st → st.curSlots = [] →
-      P.given st + supplyChunks chunks ≤ P.total →
+      (DownParams.given P) st + supplyChunks chunks ≤ (DownParams.total P) →
       ∃ st', downChunks P chunks i st =
           R.ok (chunks.map (fun ch => { ch with stable0 := none, stable1 := none }), st') ∧
         DStepPost P st st' (supplyChunks chunks) i (i + chunks.length) := by
@@ -298,4 +298,4 @@ theorem downChunks_spec (P : DownParams) (hok : P.Ok) (hD : P.dstMasterNum ≤ S
         · have := g1 ms hms; omega
       · have := g2 ms hms; omega
 
-end Um.Broker
+end Um.Broker.Scale
